@@ -676,6 +676,104 @@ func runC18(r *Run) {
 		r.Check(machine == "" && okRet && nRet >= 1, "R4", evmTypes+"."+name+"#arbitrary-precision", P.Pos(fnPos(fn)), name+" = big.Int."+op+"(…) on every path, no machine-word arithmetic",
 			fmt.Sprintf("the helper %s() no longer computes big.Int.%s on every path (machine-word arithmetic: %q): a product or sum of message fields that exceeds 64 bits wraps, so Fee/Cost figures of the message differ from the Ethereum transaction's", name, op, machine))
 	}
+
+	// ---------- R8: the envelope's fee is a canonical coin set ----------
+	r.Rule("R8", "PATH.envelope-fee-is-canonical: the coin set BuildTx hands to SetFeeAmount equals the one EthValidateBasicDecorator recomputes from the message (a sorted sdk.Coins without zero coins): it is produced by sdk.NewCoins / Coins.Add, or every coin put into it by hand is reachable only over a positive-amount edge (Sign() > 0 / IsPositive()) — with a zero fee a hand-made [0denom] survives encoding and the decoded transaction is rejected")
+	if bt, ok := P.FnOK("(*" + evmTypes + ".MsgEthereumTx).BuildTx"); ok {
+		var feeArg ssa.Value
+		eachCall(bt, func(ci CallInfo) {
+			if ci.Name == "SetFeeAmount" {
+				a := ci.Instr.Common().Args
+				feeArg = a[len(a)-1]
+			}
+		})
+		if feeArg == nil {
+			r.Bad("R8", fnID(bt)+"#envelope-fee", P.Pos(fnPos(bt)), "BuildTx no longer sets the fee of the envelope")
+		} else {
+			canonical := false
+			if c, ok := stripValue(feeArg).(*ssa.Call); ok {
+				if ci := callInfo(c); (ci.Name == "NewCoins" || (ci.Name == "Add" && ci.Recv == "Coins")) && strings.HasSuffix(ci.PkgPath, "cosmos-sdk/types") {
+					canonical = true
+				}
+			}
+			pos, _ := guardPassEdges(bt, func(cond ssa.Value) (bool, bool) {
+				if c, ok := cond.(*ssa.Call); ok {
+					if n := callInfo(c).Name; n == "IsPositive" {
+						return true, true
+					}
+					if n := callInfo(c).Name; n == "IsZero" {
+						return false, true
+					}
+				}
+				if b, ok := cond.(*ssa.BinOp); ok {
+					if c, ok := stripValue(b.X).(*ssa.Call); ok && callInfo(c).Name == "Sign" {
+						if n, okc := constInt(b.Y); okc && n == 0 && b.Op == token.GTR {
+							return true, true
+						}
+						if n, okc := constInt(b.Y); okc && n == 0 && b.Op == token.LEQ {
+							return false, true
+						}
+					}
+				}
+				return false, false
+			})
+			var w []ssa.Instruction
+			nCoins := 0
+			if !canonical {
+				sl := backSlice(feeArg)
+				for _, c := range findCalls(bt, func(ci CallInfo) bool { return ci.Name == "NewCoin" && strings.HasSuffix(ci.PkgPath, "cosmos-sdk/types") }) {
+					cv, ok := c.(*ssa.Call)
+					if !ok || !sl.Has(cv) {
+						continue
+					}
+					nCoins++
+					if p := (PathQuery{Fn: bt, Target: func(in ssa.Instruction) bool { return in == ssa.Instruction(cv) }, DelEdge: edgeSet(pos)}).Search(); p != nil {
+						w = p
+					}
+				}
+			}
+			r.Check(canonical || (w == nil && (nCoins == 0 || len(pos) > 0)), "R8", fnID(bt)+"#envelope-fee-is-canonical", P.Pos(fnPos(bt)), "fee coins enter the envelope only when positive (or through NewCoins/Add)",
+				"BuildTx puts a coin into the envelope's fee without testing that its amount is positive and without normalising the set: for a zero-fee message the envelope carries [0denom], which the recomputed (empty) fee does not equal after a decode — the round trip fails exactly for zero-fee transactions", P.witness(w)...)
+		}
+	} else {
+		r.Bad("R8", "anchor/BuildTx", "", "not found")
+	}
+
+	// ---------- R9: the 256-bit bound admits the all-ones word ----------
+	r.Rule("R9", "SHAPE.bound-admits-max-uint256: IsValidInt256 — the bound every amount field passes when an Ethereum transaction is wrapped and validated — accepts exactly the values of at most 256 bits: its comparison is BitLen() <= 256 (or the same class: > 256, < 257, >= 257; or CmpAbs(MaxBig256) <= 0 and its class) — an exclusive bound rejects 2^256-1, a value every field may legally hold")
+	if iv, ok := P.FnOK("types.IsValidInt256"); ok {
+		okB, seen := false, ""
+		eachInstr(iv, func(in ssa.Instruction) {
+			b, ok := in.(*ssa.BinOp)
+			if !ok {
+				return
+			}
+			c, ok := stripValue(b.X).(*ssa.Call)
+			if !ok {
+				return
+			}
+			n, okc := constInt(b.Y)
+			if !okc {
+				return
+			}
+			name := callInfo(c).Name
+			seen = fmt.Sprintf("%s() %s %d", name, b.Op, n)
+			switch name {
+			case "BitLen":
+				okB = (b.Op == token.LEQ || b.Op == token.GTR) && n == 256 || (b.Op == token.LSS || b.Op == token.GEQ) && n == 257
+			case "CmpAbs", "Cmp":
+				isMax := backSlice(c.Call.Args...).Any(func(v ssa.Value) bool {
+					g, ok := v.(*ssa.Global)
+					return ok && (g.Name() == "MaxBig256" || g.Name() == "MaxUint256")
+				})
+				okB = isMax && ((b.Op == token.LEQ || b.Op == token.GTR) && n == 0 || (b.Op == token.LSS || b.Op == token.GEQ) && n == 1)
+			}
+		})
+		r.Check(okB, "R9", fnID(iv)+"#bound-admits-max-uint256", P.Pos(fnPos(iv)), "bound is "+seen,
+			"IsValidInt256 compares with "+seen+": the bound is not 'at most 256 bits' — a maximal amount (2^256-1) in value, gas price, fee cap, tip cap or the fee product makes wrapping or validation of a well-formed signed transaction fail")
+	} else {
+		r.Bad("R9", "anchor/types.IsValidInt256", "", "not found")
+	}
 }
 
 // sameLoop: a and b have the same innermost enclosing natural loop (and are inside one).
